@@ -99,6 +99,7 @@ static bool g_active = false;
 static Params P;
 static Stats S;
 static Rng sched_rng, frng, erng;
+static std::vector<std::string> g_entropy_opens;   // per open() of the simulated /dev/urandom that has been closed again: the bytes it was served, in order
 static int64_t g_now_us = 0;
 static uint64_t g_hash = 0;
 static std::string g_text;
@@ -125,6 +126,7 @@ uint64_t trace_hash(){ return g_hash; }
 void trace_mix(uint64_t v){ g_hash = (g_hash ^ v) * 1099511628211ULL; }
 Rng &fault_rng(){ return frng; }
 Rng &entropy_rng(){ return erng; }
+const std::vector<std::string> &entropy_by_open(){ return g_entropy_opens; }
 const std::string &trace_text(){ return g_text; }
 void tracef(const char *fmt,...){
 	if(!P.text_trace) return;
@@ -254,7 +256,7 @@ std::map<std::string,uint64_t> &probes();
 
 void begin(const Params &p){
 	P = p; S = Stats();
-	sched_rng.seed(p.sched_seed); frng.seed(p.fault_seed ^ 0xFA17); erng.seed(p.fault_seed ^ 0xE27809);
+	sched_rng.seed(p.sched_seed); frng.seed(p.fault_seed ^ 0xFA17); erng.seed(p.fault_seed ^ 0xE27809); g_entropy_opens.clear();
 	g_now_us = p.start_time_s * 1000000LL; g_hash = 1469598103934665603ULL; g_text.clear();
 	for(auto t:threads) delete t;
 	threads.clear(); actors.clear(); actor_prio.clear(); in_actor=false; tape_pos=0; last_choice=0;
@@ -407,7 +409,7 @@ extern "C" int __wrap_nanosleep(const struct timespec*ts,struct timespec*rem){ I
 // ================================================================ descriptors
 namespace simk {
 struct Obj {
-	enum Kind { UNBOUND, LISTENER, STREAM, EPOLL, FILE_, URANDOM } kind = UNBOUND; bool pipe_end = false;
+	enum Kind { UNBOUND, LISTENER, STREAM, EPOLL, FILE_, URANDOM } kind = UNBOUND; bool pipe_end = false; std::string served;   /* URANDOM: what this descriptor was served */
 	bool nonblock=false; int family=0; int socktype=SOCK_STREAM; std::string addr;
 	std::shared_ptr<bool> reset;
 	std::shared_ptr<Chan> rx,tx;
@@ -513,6 +515,7 @@ extern "C" int __wrap_connect(int fd,const struct sockaddr*sa,socklen_t len){ IG
 extern "C" int __wrap_close(int fd){ IGN; SIMFD(o,fd); if(!o) return __real_close(fd);
 	yield(); o=get(fd); if(!o){ errno=EBADF; return -1; }
 	if(o->kind==Obj::STREAM){ o->tx->wr_closed=true; o->rx->rd_closed=true; }
+	if(o->kind==Obj::URANDOM && g_entropy_opens.size()<200000) g_entropy_opens.push_back(o->served);
 	if(o->kind==Obj::LISTENER){ auto it=listeners.find(o->addr); if(it!=listeners.end()&&it->second==fd) listeners.erase(it);
 		for(auto&s:o->backlog){ *s->reset=true; s->tx->wr_closed=true; s->rx->rd_closed=true; } }
 	for(auto&e:fdtab) if(e && e->kind==Obj::EPOLL) e->interest.erase(fd);
@@ -683,7 +686,7 @@ static ssize_t file_read(Obj&o,const struct iovec*iov,int n){
 	if(P.p_file_eintr && frng.chance(P.p_file_eintr)){ S.file_eintr++; trace_mix(0xF1); errno=EINTR; return -1; }
 	if(o.kind==Obj::URANDOM){
 		size_t k=total; if(k>1 && P.p_file_short && frng.chance(P.p_file_short)){ k=1+frng.below(k); S.file_short++; }
-		size_t done=0; for(int i=0;i<n&&done<k;i++){ size_t c=std::min(iov[i].iov_len,k-done); for(size_t j=0;j<c;j++) ((unsigned char*)iov[i].iov_base)[j]=(unsigned char)(erng.next()>>32); done+=c; }
+		size_t done=0; for(int i=0;i<n&&done<k;i++){ size_t c=std::min(iov[i].iov_len,k-done); for(size_t j=0;j<c;j++){ unsigned char b=(unsigned char)(erng.next()>>32); ((unsigned char*)iov[i].iov_base)[j]=b; if(o.served.size()<4096) o.served.push_back((char)b); } done+=c; }
 		return done; }
 	if((o.oflags&O_ACCMODE)==O_WRONLY){ errno=EBADF; return -1; }
 	std::string &d=o.file->data; if(o.pos>=d.size()||total==0) return 0;
